@@ -492,6 +492,20 @@ func (r *Run) gwAdmits(gw *gatewayv1.Gateway, l *gatewayv1.Listener, kind, route
 			return false
 		}
 	}
+	{
+		// Gateway API: "When unspecified or empty, the kinds of Routes selected are determined using the Listener
+		// protocol", and listed kinds must be compatible with it
+		switch l.Protocol {
+		case gatewayv1.HTTPProtocolType, gatewayv1.HTTPSProtocolType:
+			if kind != "HTTPRoute" {
+				return false
+			}
+		case gatewayv1.TCPProtocolType:
+			if kind != "TCPRoute" {
+				return false
+			}
+		}
+	}
 	switch *ar.Namespaces.From {
 	case gatewayv1.NamespacesFromAll:
 		return true
@@ -859,4 +873,12 @@ func init() {
 	register(&Profile{Name: "gateway", Prop: "C10", Weight: 1,
 		Oracles: OracleSet{Property: "C10", Gateway: true},
 		Build:   genGateway})
+	// the Gateway API worlds under the loadability oracle (two backendRefs of one rule may select the same pods)
+	register(&Profile{Name: "stress-gateway", Prop: "C07", Weight: 1,
+		Oracles: OracleSet{Property: "C07", Loadable: true},
+		Build: func(seed uint64, tier string) *RunConfig {
+			rc := genGateway(seed, tier)
+			rc.Property, rc.Profile = "C07", "stress-gateway"
+			return rc
+		}})
 }
